@@ -619,3 +619,25 @@ def L2m(tier, scheds=('fwd',)):
                 for bal in (True, False):
                     for clock in ((S - 30 * DAY, S + DAY + H9) if sched == 'fwd' else (S - 30 * DAY,)):
                         yield Scenario(sched, bal, S, mk_tasks(par, attrs), list(links), clock=clock, layer='L2m')
+
+
+def L2n(tier, scheds=('fwd', 'bwd')):
+    """Stale values on summaries wherever they stand: every forest of <= 4 tasks (thorough: 5) with at least one summary; every
+    summary carries user-entered dates, estimate and spent (forward: in the past), also when it stands AFTER leaf siblings or below
+    another such summary; one leaf variant with the leaves on one resource and one with a resource each."""
+    nmax = 4 if tier == 'quick' else 5
+    for n in range(2, nmax + 1):
+        for par in forests(n):
+            lv = [i for i in range(n) if is_leaf(par, i)]
+            if len(lv) == n:
+                continue
+            for sched in scheds:
+                A = MON if sched == 'fwd' else MON + 21 * DAY
+                noise = dict(SUMMARY_NOISE) if sched == 'fwd' else {'estimate': 99, 'spent': 7, 'start': A - 3 * DAY, 'end': A + 30 * DAY}
+                for rpat in ('A', 'each'):
+                    attrs = {i: {'estimate': 4 + 4 * (k % 2), 'resource': 'A' if rpat == 'A' else 'R%d' % i} for k, i in enumerate(lv)}
+                    for i in range(n):
+                        if i not in lv:
+                            attrs[i] = dict(noise)
+                    for bal in (True, False):
+                        yield Scenario(sched, bal, A, mk_tasks(par, attrs), [], clock=MON - 30 * DAY if sched == 'fwd' else None, layer='L2n')
